@@ -6,6 +6,7 @@ ASSUME = [
     "bit equality identifies +0 and -0; test data are finite (include negatives, denormals, 60 decades of dynamic range)",
     "polynomial reproduction is required only where the whole stencil lies inside the grid; tolerance 6e-6*max|stencil data| plus slope * (offset bits lost in the float sum n/2+offset)",
     "weights: tolerance 1e-6 on sum and moments (float evaluation of the Lagrange basis; worst observed 1.5e-7)",
+    "a third of the shift/polynomial cases are trains of 2-3 bunches with per-bunch displacement fields (y kick) / one field for all bunches (x kick)",
     "RotationMap (tests-only class) is exercised in the release variant only: its float->unsigned conversion of negative source coordinates is outside C17's program scope",
     "oracle: double-precision evaluation of the polynomial at the displaced position; never calls Inovesa code for expected values",
 ]
@@ -27,4 +28,4 @@ def run(ctx):
     core.run_harness(ctx, "c02", 2000 if th else 80, variant="asan", args=["--mode", "poly"])
     ctx.min_events = {"weight_sets_checked": 1000000, "shift_applications": 1000,
                       "poly_cells_compared": 10000, "rot_cells_compared": 1000,
-                      "weights_checked_at_zero": 1}
+                      "weights_checked_at_zero": 1, "shift_applications_multibunch": 200, "poly_applications_multibunch": 100}
